@@ -1,5 +1,7 @@
 import CG.Proofs.C14
 import CG.Proofs.C14Idem
+import CG.Proofs.C14Eq
+import CG.Proofs.C08LaggedRoundTrip
 
 #print axioms CG.C14.minimal_ok
 #print axioms CG.C14.minimal_edges
@@ -12,3 +14,13 @@ import CG.Proofs.C14Idem
 #print axioms CG.C14.minimal_attrs
 #print axioms CG.C14.isMinimal_iff
 #print axioms CG.C14.isMinimal_ok
+#print axioms CG.C14.isMinimal_eq_graphEq
+#print axioms CG.C14.isMinimal_iff_graphEq
+#print axioms CG.C14.isMinimal_ok_graphEq
+#print axioms CG.C14.isMinimal_of_minimal_graphEq
+#print axioms CG.C14.isMinimal_true_iff_structural
+#print axioms CG.C14.isMinimal_true_iff
+#print axioms CG.C14.isMinimal_true_iff_lag0
+#print axioms CG.C14.minimal_no_reverse
+#print axioms CG.C14.adjMatrices_eq
+#print axioms CG.C14.adjMatrices_refuses_iff
